@@ -14,6 +14,7 @@ fn main() {
         id: 0,
         nbatches: if thorough { 16 } else { 8 },
         max_xl_ulps: 0.0,
+        max_xl_window: 0.0,
     };
     let ninst = if thorough { 20 } else { 5 };
     // every section draws from its own child generator, so that a replay of one id is stable
@@ -34,7 +35,7 @@ fn main() {
     lap!("linear_models");
     let mut r = rng.fork(); linear_models(&mut ctx, &mut r, ninst);
     lap!("isotonic_models");
-    let mut r = rng.fork(); isotonic_models(&mut ctx, &mut r, ninst);
+    let mut r = rng.fork(); isotonic_models(&mut ctx, &mut r, 3 * ninst);
     lap!("logistic_models");
     let mut r = rng.fork(); logistic_models(&mut ctx, &mut r, ninst);
     lap!("svm_models");
@@ -52,5 +53,8 @@ fn main() {
     // largest cross-layout difference seen, in units of 1e-3 ulp of the larger value
     let ulps = (ctx.max_xl_ulps * 1000.0).min(1.0e15) as u64;
     ctx.out.bump_by("xl_max_difference_milli_ulps", ulps);
+    // largest fraction of the cross-layout rounding window that was consumed, in 1e-6
+    let win = (ctx.max_xl_window * 1.0e6).min(1.0e15) as u64;
+    ctx.out.bump_by("xl_max_window_fraction_ppm", win);
     ctx.out.finish("per predictor type: fitted instances over feature counts {1,2,3,5,8,9,17} x batches (whole pool, empty, single row, one row three times, random rows with repeats), each batch predicted whole / row by row / permuted / with duplicates / in halves / through every calling form / in column-major, strided and reversed layouts; Coq cases: exhaustive (rows, members) in 0..4 x 0..4 for both wrappers plus random and malformed members, platt_predict over special and random (a, b, x), one case per fitted k-means / linear / tree / isotonic / affine model; a case is non-trivial when the batch has >= 2 rows (metamorphic) or the wrapper has >= 2 members; distinct = distinct canonical inputs");
 }
